@@ -58,6 +58,12 @@ Definition decrypt_snapshot_body (encrypted : bool) (contents : B) : option jv :
     let body := set_field "data" v6 body in
     Some body))))))
   else Some body).
+
+(* a chunk object: the plaintext chunk under a key derived from the shared key and the chunk's digest *)
+Definition chunk_ciphertext (r : R) (output_chunk : B) : option B :=
+  Some (encrypt r output_chunk (derive (hash output_chunk))).
+Definition chunk_plaintext (digest contents : B) : option B :=
+  obind (decrypt contents (derive digest)) Some.
 End Body.
 
 (* ------------------------------------------------------------------ time stamps on restore *)
